@@ -436,6 +436,25 @@ func (h *Hist) genTx() *histTx {
 		a := h.amt(1_000_000, 20_000_000_000)
 		lev := []string{"1.5", "2", "3", "5", "8", "10"}[r.Intn(6)]
 		sl := D("0")
+		switch r.Intn(8) {
+		case 0:
+			// a pure collateral top-up: leverage exactly 1 on a position that exists (nothing is borrowed)
+			if all := app.LeveragelpKeeper.GetAllPositions(ctx); len(all) > 0 {
+				pos := all[r.Intn(len(all))]
+				if o := w.byAddr[pos.Address]; o != nil {
+					u, lev = o, "1"
+					tx.req.Signer = o
+					for _, q := range h.std.Pools {
+						if q.Id == pos.AmmPoolId {
+							p = q
+						}
+					}
+				}
+			}
+		case 1:
+			// dust: the borrowed part truncates to zero
+			a, lev = math.NewInt(int64(1+r.Intn(3))), []string{"1.1", "1.5", "1.9"}[r.Intn(3)]
+		}
 		tx.req.Msgs = []sdk.Msg{&lptypes.MsgOpen{Creator: u.Addr.String(), CollateralAsset: h.std.USDC, CollateralAmount: a, AmmPoolId: p.Id, Leverage: D(lev), StopLossPrice: sl}}
 		tx.f = J{"pool": p.Id, "collateral": a.String(), "leverage": lev}
 	case "lp.close", "lp.closePositions", "lp.claim":
